@@ -24,6 +24,7 @@ DOC = {
         "preceding the noise draw on every path that has a seed."
     ),
     "rules": {
+        "C14-R6": "automatic linking (link_clp unset) requires one common global dimension name over all datasets (shared with C09-R5)",
         "C14-R1": "simulate_from_clp / simulate_full_model and MatrixProvider.calculate_dataset_matrices / calculate_global_matrices all call MatrixProvider.calculate_dataset_matrix; nothing in glotaran/simulation calls a megacomplex' calculate_matrix directly; the dataset model is filled from the given parameters",
         "C14-R2": "data[:, i] = matrix_i @ clp(position i on the global dimension, selected by the matrix' clp labels); result allocated as zeros (model, global) on the given axes",
         "C14-R3": "full model: clp = global matrix transposed to (clp_label, global) with the global matrix' own labels; index dependent global matrices are refused",
@@ -195,9 +196,14 @@ def r5(ctx) -> None:
     pipeline(ctx, rule="C14-R5")
 
 
+def r6(ctx) -> None:
+    """Fit and simulation describe the same model only if datasets are linked on one common global dimension (shared with C09-R5)."""
+    lib.check_linkable_requires_one_global_dimension(ctx, "C14-R6")
+
+
 def check(ctx) -> None:
     for g in check.groups:
         g(ctx)
 
 
-check.groups = [r1, r2, r3, r4, r5]
+check.groups = [r1, r2, r3, r4, r5, r6]
